@@ -34,8 +34,11 @@ EXPLANATION = (
     "== 1/compliance, compliance is a sum of positive monomials (strictly increasing strain), strain is odd (parity typing), "
     "delta_strain(D) == 2 strain(D/2), delta_stress == 2 stress(D/2), lower_hysteresis(s_max, s_max) == strain(s_max). "
     "True stress/strain formulas == log(1+e), s(1+e), log(1/(1-Z)), F/(A(1-Z)). R-C16-8 (not a proof obligation, structural): "
-    "the Newton inversion stress() is wired to that strain function, that derivative, the start value E*|strain| and the "
-    "sign of the strain. NOT covered: convergence of the two Newton inversions (stress, delta_stress).")
+    "the Newton inversion stress() is wired to that strain function, that derivative and the sign of the strain; its start "
+    "value is the smallest of the stresses at which one term of strain() alone reaches |strain|, for ALL terms (normal-form "
+    "check term(x0_i) == |strain|): an upper bound of the root with strain(x0) <= 2|strain|, so the monotone descent on the "
+    "convex residual needs a number of steps that does not grow with E/K or 1/n. NOT covered: the iteration count itself and "
+    "the termination tolerances of the two Newton inversions (stress, delta_stress).")
 EXPLANATION += (' R-C16-8 additionally requires the magnitude returned by RambergOsgood.stress to be the unmodified Newton root. R-C16-10 (not part of the proof rules): no method of the Hooke, Ramberg-Osgood and true-stress modules writes into an argument through any alias (effect analysis incl. out=, comprehensions, helper returns).')
 EXPLANATION += (" R-C16-11: every array conversion in the law modules (np.asarray / np.array / astype) is value preserving - no element type, a floating type, or the common type of all components - and the Hooke conversion helper returns np.asarray(component) for each component in order; this discharges the identity treatment of that helper in the symbolic execution.")
 EXPLANATION += (" R-C16-12: the residual and every derivative handed to the Newton solver contain no power of the iterate whose exponent can be negative for some 0 < n < 1 (interval arithmetic on the exponent, following the methods they call): such a term is infinite at the zero iterate that zero strain starts from.")
@@ -567,18 +570,73 @@ def _newton(ctx):
         ctx.holds(f, fpr, "derivative = tangential_compliance(stress)")
     else:
         ctx.violated(f, fpr or f.node, "Newton derivative is not tangential_compliance(stress)", text="fprime")
+    # start value: strain() is a sum of non-negative, increasing terms (R-C16-7), so a stress at which ONE term alone equals the
+    # given strain is an upper bound of the root, from which the iteration on the convex residual descends monotonically.  The
+    # number of steps is bounded independently of E, K, n only if the start value is the smallest of such bounds over ALL terms
+    # (then strain(x0) <= #terms * |strain|); a single bound can be arbitrarily far above the root (E*|strain| for a small
+    # hardening exponent), the solver's iteration limit is hit and the array solver returns unconverged entries with a warning.
     x0 = kw.get("x0")
-    x0v = None
-    if isinstance(x0, ast.Name):
-        d = [s for s in f.node.body if isinstance(s, ast.Assign) and isinstance(s.targets[0], ast.Name) and s.targets[0].id == x0.id]
-        x0v = d[0].value if d else None
-    ok = x0v is not None and isinstance(x0v, ast.BinOp) and isinstance(x0v.op, ast.Mult) and \
-        {norm_text(x0v.left), norm_text(x0v.right)} == {"self._E", [k for k, v in env.items() if v == "abs"][0]}
+    absname = [k for k, v in env.items() if v == "abs"]
+    if x0 is None or not absname:
+        raise AnalysisError("RambergOsgood.stress: start value or |strain| not found")
+    defs1 = {}
+    for s_ in f.node.body:
+        if isinstance(s_, ast.Assign) and len(s_.targets) == 1 and isinstance(s_.targets[0], ast.Name):
+            defs1.setdefault(s_.targets[0].id, []).append(s_.value)
+    x0e = x0
+    for _ in range(4):          # follow single-definition locals down to |strain|
+        m_ = {nm: vs[0] for nm, vs in defs1.items() if len(vs) == 1 and nm != absname[0] and nm in names_in(x0e)}
+        if not m_:
+            break
+        x0e = subst_names(x0e, m_)
+    cands = list(x0e.args) if isinstance(x0e, ast.Call) and (call_name(x0e) or "") in ("np.minimum", "min", "np.fmin") else [x0e]
+    sf = prog.lookup_method(ci, "strain")
+    sret = [s_ for s_ in walk_function(sf.node) if isinstance(s_, ast.Return)][-1].value
+    terms = []
+
+    def flat(e):
+        if isinstance(e, ast.BinOp) and isinstance(e.op, ast.Add):
+            flat(e.left)
+            flat(e.right)
+        elif isinstance(e, ast.Call) and is_self_attr(e.func):
+            terms.append(e.func.attr)
+        else:
+            raise AnalysisError("RambergOsgood.strain: term %s is not a method of the law" % norm_text(e))
+    flat(sret)
+    ex = MethodNF(prog)
+    a_sym = RF.sym("a")
+
+    def atom(e):
+        if is_self_attr(e) and e.attr in ("_E", "_K", "_n"):
+            return e.attr[1:]
+        if isinstance(e, ast.Name) and e.id == absname[0]:
+            return "a"
+        return None
+    covered, loose = set(), []
+    try:
+        for cnd in cands:
+            cnf = to_nf(cnd, atom=atom)
+            hit = [t for t in terms if ex.call(ci, t, [cnf]) == a_sym]
+            if hit:
+                covered |= set(hit)
+            else:
+                loose.append(cnd)
+    except NFUnsupported as e_:
+        raise AnalysisError("Newton start value outside the fragment: %s" % e_)
     tol_ok = norm_text(kw.get("rtol", ast.Constant(None))) == "rtol" and norm_text(kw.get("tol", ast.Constant(None))) == "tol"
-    if ok and tol_ok:
-        ctx.holds(f, c[0], "start value E*|strain| (elastic estimate), tolerances forwarded")
+    if loose:
+        ctx.violated(f, c[0], "Newton start value %s: %s does not make any single term of strain() equal to the given strain, so it "
+                     "is not known to be an upper bound of the root" % (norm_text(x0e), norm_text(loose[0])), text="x0 bound")
+    elif set(terms) - covered:
+        ctx.violated(f, c[0], "Newton start value %s bounds the root through %s only: without the bound from %s it can lie "
+                     "arbitrarily far above the root (small hardening exponent, large strain), the iteration limit of the solver is "
+                     "reached and the array solver returns unconverged stresses with only a warning - stress(strain(s)) != s" %
+                     (norm_text(x0e), "/".join(sorted(covered)), "/".join(sorted(set(terms) - covered))), text="x0 one-sided")
+    elif not tol_ok:
+        ctx.violated(f, c[0], "the tolerances are not forwarded to the solver", text="x0/tol")
     else:
-        ctx.violated(f, c[0], "Newton start value is not E*|strain| or the tolerances are not forwarded", text="x0/tol")
+        ctx.holds(f, c[0], "start value = smallest of the stresses at which one term of strain() alone (%s) reaches |strain|: upper "
+                  "bound with strain(x0) <= %d |strain|; tolerances forwarded" % ("/".join(terms), len(terms)))
     r = [s for s in f.node.body if isinstance(s, ast.Return)][-1]
     v = r.value
     ok = isinstance(v, ast.BinOp) and isinstance(v.op, ast.Mult) and \
@@ -817,6 +875,22 @@ def variants():
         f.body[-1].value = ast.Name(id="abs_stress", ctx=ast.Load())
         return True
     out.append(witness("inverse loses the sign", RP, newton_sign, "R-C16-8"))
+
+    def x0_edit(expr):
+        def f_(tree):
+            f = find_func(tree, "RambergOsgood.stress")
+            for st in f.body:
+                if isinstance(st, ast.Assign) and isinstance(st.targets[0], ast.Name) and st.targets[0].id == "stress0":
+                    st.value = parse_expr(expr)
+                    return True
+            return False
+        return f_
+    out.append(witness("start value from the elastic bound only", RP, x0_edit("self._E * abs_strain"), "R-C16-8"))
+    out.append(witness("start value from the plastic bound only", RP, x0_edit("self._K * abs_strain ** self._n"), "R-C16-8"))
+    out.append(witness("start value not a bound (K instead of E)", RP,
+                       x0_edit("np.minimum(self._K * abs_strain, self._K * np.power(abs_strain, self._n))"), "R-C16-8"))
+    out.append(twin("start value with the bounds swapped and ** for np.power", RP,
+                    x0_edit("np.minimum(abs_strain ** self._n * self._K, abs_strain * self._E)")))
 
     def true1(tree):
         f = find_func(tree, "true_stress")
